@@ -28,6 +28,8 @@ var corruptionClasses = []string{
 	// self-referencing and the cascade-delete fk index, the second fk constraint
 	"unique-missing-child", "unique-extra-child", "unique-missing-nick",
 	"fk-missing-backref-mentees", "fk-extra-backref-badges", "fk-missing-backref-badges", "fkc-dangling-memo", "fkc-dangling-ticket",
+	// two corruptions on the same index key: every entry of the key is stale AND its real holders are missing from it
+	"set-key-all-stale-holders-missing",
 }
 
 type appliedCorruption struct {
@@ -190,6 +192,52 @@ func (r *Run) applyCorruptions(tx *bbolt.Tx, m *Model, list []Corruption) []appl
 				}
 				out = append(out, appliedCorruption{c: c, desc: "set index key " + role + " removed", expect: exp})
 			}
+		case "set-key-all-stale-holders-missing":
+			var cands []string
+			for _, p := range people {
+				if len(m.People[p].Roles) > 0 {
+					cands = append(cands, p)
+				}
+			}
+			p, ok := pickFrom(c, cands)
+			if !ok {
+				continue
+			}
+			role := m.People[p].Roles[c.N%len(m.People[p].Roles)]
+			if used["role:"+role] {
+				continue
+			}
+			okAll := true
+			var exp [][]string
+			var holders []string
+			for _, h := range people {
+				if containsStr(m.People[h].Roles, role) {
+					if used[h] {
+						okAll = false
+					}
+					holders = append(holders, h)
+					exp = append(exp, []string{"for index on people.roles, id " + h + " has val " + role + ", but is not in the index"})
+				}
+			}
+			if !okAll {
+				continue
+			}
+			for _, h := range holders {
+				used[h] = true
+			}
+			used["role:"+role] = true
+			g := ghost()
+			kb := idxRoles().Bucket([]byte(role))
+			for _, h := range holders {
+				del(kb, typedKey(h))
+			}
+			if c.N%2 == 0 {
+				put(kb, typedKey(g), nil)
+				exp = append(exp, []string{"for index on people.roles, val " + role + " references id " + g + ", which doesn't exist"})
+			} else {
+				exp = append(exp, []string{"for index on people.roles, index value " + role + " has no referenced values"})
+			}
+			out = append(out, appliedCorruption{c: c, desc: "set index key " + role + ": holders removed, only a stale / no entry left", expect: exp})
 		case "set-extra-absent":
 			role := U.Roles[c.N%len(U.Roles)]
 			if used["role:"+role] {
@@ -484,9 +532,11 @@ func (r *Run) checkAll(fix bool) ([]intReport, error) {
 
 func (r *Run) dumpNow() *Dump {
 	var d *Dump
-	_ = r.db.View(func(tx *bbolt.Tx) error {
-		d = TakeDump(tx)
-		return nil
+	r.s.Atomic(func() {
+		_ = r.db.View(func(tx *bbolt.Tx) error {
+			d = TakeDump(tx)
+			return nil
+		})
 	})
 	return d
 }
